@@ -657,6 +657,13 @@ def _do_init(R, W, ev, failures, stats, note_write, step, model=None):
         again = _read(path)
         if again != after:
             failures.append(_fail("not-idempotent", tag, "second-run-changed-file", exit=r2["exit"], step=step))
+        else:
+            # nothing is missing any more, so another preset has nothing to add either
+            other = [p_ for p_ in ("strict", "standard", "lenient") if p_ != (ev["preset"] or "standard")][step % 2]
+            argv3 = ["init-config", "--non-interactive", "--preset", other] + (["--output", out] if ev["output"] else [])
+            r3 = R.cli(argv3)
+            if _read(path) != after:
+                failures.append(_fail("not-idempotent", tag, "run-with-other-preset-changed-file", exit=r3["exit"], preset=other, step=step))
     elif not merging:
         # creation / --force: the generated file parses and every linter command accepts it
         if r["exit"] != 0:
